@@ -311,7 +311,7 @@ theorem createNextTable_log (k : Kind) (s : St) (p4 : Word) (r : List Nat) (tbl 
         have hnt : nextTable (Pte.mk f (linkFl k pflags)) = .ok f := by
           rw [nextTable_ok_iff]; exact (tableOf_some_iff _ _).2 ⟨b1, b2, b3.symm⟩
         simp only [St.alloc, St.rd, hall]
-        have hfl : (if k.recursive = true then Pte.PRESENT ||| Pte.WRITABLE ||| pflags else pflags) = linkFl k pflags := rfl
+        have hfl : (if k.recursive = true then Pte.PRESENT ||| Pte.WRITABLE ||| pflags else Pte.PRESENT ||| pflags) = linkFl k pflags := rfl
         simp only [hfl, b4, Bool.not_true, Bool.false_eq_true, if_false, hnt]
         have T := tblAt_linked s.mem p4 hinv r tbl i f (linkFl k pflags) hr hrl hri hi hzero hfresh hlf
         have htf : tbl ≠ f := fun h => hfresh.notTable r (by omega) hri (h ▸ hr)
